@@ -62,7 +62,7 @@ PY_SETUP = {"environment.Environment.add_extension", "environment.Environment.ex
             "utils.pass_context", "utils.pass_eval_context", "utils.pass_environment", "utils.internalcode", "utils.clear_caches",
             "environment.TemplateStream.enable_buffering", "environment.TemplateStream.disable_buffering"}
 PY_ENGINE_PARAMS = {"context", "ctx", "eval_ctx", "__self", "__context", "frame", "loop", "buf"}
-PY_OWNED = {("runtime.new_context", "vars"), ("filters.prepare_map", "kwargs"), ("filters.prepare_select_or_reject", "kwargs")}
+PY_OWNED = {("runtime.new_context", "vars"), ("filters.prepare_map", "kwargs")}
 
 
 def failing_rows(rows):
@@ -128,7 +128,7 @@ STATE_SNIPS = [
     "{{ d|items|list }}", "{{ words|indent(2) if words is string else lines|indent(2) }}", "{{ lines|indent(2, first=true) }}",
     "{{ d.update({'zz': 1}) if false else '' }}", "{{ nums|first }}{{ nums|last }}{{ nums|min }}{{ nums|max }}", "{{ nums|random is number }}",
     "{{ words|batch(2)|map('join')|list }}", "{{ text|wordwrap(5) }}", "{{ text|truncate(6) }}", "{{ text|urlize }}", "{{ text|striptags }}",
-    "{{ gl.a }}{{ gl.items|join }}", "{{ tg.k }}{{ tg.lst|length }}", "{% set v = acc %}{{ v|length }}", "{% set k = d %}{{ k|length }}",
+    "{{ gl.a }}{{ gl.its|join }}", "{{ tg.k }}{{ tg.lst|length }}", "{% set v = acc %}{{ v|length }}", "{% set k = d %}{{ k|length }}",
     "{% import 'lib.html' as L %}{{ L.m(nums) }}{{ L.v }}", "{% from 'lib.html' import m with context %}{{ m(words) }}",
     "{% include 'inc.html' %}", "{% macro q(p=acc) %}{{ p|length }}{% endmacro %}{{ q() }}{{ q(nums) }}",
     "{% for k, v in d|dictsort %}{{ k }}={{ v }}{% endfor %}", "{% for x in nested recursive %}{% if x is iterable and x is not string %}{{ loop(x) }}{% else %}{{ x }}{% endif %}{% endfor %}",
@@ -136,7 +136,7 @@ STATE_SNIPS = [
     "{% set acc2 = acc %}{% set acc2 = acc2 + [1] %}{{ acc2|length }}{{ acc|length }}",
 ]
 AUX = {
-    "lib.html": "{% macro m(xs) %}[{{ xs|join(',') }}{{ gl.a }}]{% endmacro %}{% set v = gl.items|length %}",
+    "lib.html": "{% macro m(xs) %}[{{ xs|join(',') }}{{ gl.a }}]{% endmacro %}{% set v = gl.its|length %}",
     "inc.html": "<{{ nums|sum }}{{ words|first }}{{ tg.k }}>",
 }
 
@@ -147,7 +147,7 @@ def make_inputs():
         "nested": [["p", "q"], ["r"]], "recs": [{"n": 1, "a": "x"}, {"n": 2, "a": "y"}, {"n": 1, "a": "z"}],
         "d": {"k": "v", "a": 1}, "lines": "l1\nl2", "text": "some text http://x.y <b>bold</b>",
     }
-    env_globals = {"gl": {"a": "ga", "items": ["g1", "g2"]}}
+    env_globals = {"gl": {"a": "ga", "its": ["g1", "g2"]}}
     tpl_globals = {"tg": {"k": "tk", "lst": [1, 2]}}
     return data, env_globals, tpl_globals
 
